@@ -15,7 +15,7 @@ import ast
 import z3
 
 from pyvc.se import (State, ArrData, ListData, ObjData, RngData, Opaque, Ref, LoopSpec, Engine, fresh, fresh_fn, fresh_sel,
-                     to_real, to_int, I, R, B, USort, is_z3, Unsupported, z3bool, producer, derives_from, GlobalName, DictData)
+                     to_real, to_int, I, R, B, USort, is_z3, Unsupported, z3bool, producer, derives_from, GlobalName, DictData, mk_fv)
 from pyvc.unit import se_unit, returns, raises, get_repo
 from pyvc.lib import Lib, as_array, arr_of, CNT
 from .encoder import install_encoder, MISSING
@@ -378,3 +378,66 @@ for _a in (False, True):
     for _b in (False, True):
         REG_UNITS[f"C15.ProbabilisticRegressor.predict.{_a}.{_b}"] = unit_prob_predict(_a, _b)
 REG_UNITS["C15.ProbabilisticRegressor.sample_y"] = unit_sample_y()
+
+
+# ------------------------------------------------------------------------------------------ conjugate update of the NIC regressors (C15)
+FN = "skactiveml/regressor/_nic_kernel_regressor.py"
+
+
+def unit_combine_params(prior):
+    """_combine_params(prior, update), the normal-inverse-chi-squared conjugate update behind NICKernelRegressor / NadarayaWatsonRegressor, for one
+    query point (the function is elementwise; numpy applies it to every query point):
+      proper prior (kappa_0 > 0, nu_0 > 0, sigma_sq_0 > 0), any update with kappa, nu, sigma_sq >= 0:
+          no division by zero, kappa_post > 0, nu_post > 0, sigma_sq_post > 0, mu_post lies between the prior mean and the update mean
+          -> scale^2 = (1 + kappa_post) / kappa_post * sigma_sq_post is a positive finite number (the predictive distribution is proper)
+      NadarayaWatson prior (kappa_0 = 0, nu_0 = 3, sigma_sq_0 = 1) and an update with kernel mass N > 0 (some labeled sample in reach):
+          kappa_post = N > 0, nu_post = 3 + N > 2 (finite standard deviation), sigma_sq_post > 0, mu_post = the kernel-weighted mean
+      without labels the update is the neutral element (all zeros): the posterior equals a proper prior"""
+    def setup(E, st):
+        k1, n1, m1, s1 = (mk_fv(z3.BoolVal(False), z3.Real(x)) for x in ("kappa_1", "nu_1", "mu_1", "sigma_sq_1"))
+        k2, n2, m2, s2 = (mk_fv(z3.BoolVal(False), z3.Real(x)) for x in ("kappa_2", "nu_2", "mu_2", "sigma_sq_2"))
+        r = lambda v: to_real(v)[1]
+        if prior == "proper":
+            st.assume(r(k1) > 0, r(n1) > 0, r(s1) > 0, r(k2) >= 0, r(n2) >= 0, r(s2) >= 0)
+        elif prior == "nadaraya_watson":
+            st.assume(r(k1) == 0, r(n1) == 3, r(s1) == 1, r(k2) > 0, r(n2) == r(k2), r(s2) >= 0)      # update = (N, N, mu_ml, var_ml) with N > 0
+        else:   # neutral update (no labeled sample): (0, 0, 0, 0)
+            st.assume(r(k1) > 0, r(n1) > 0, r(s1) > 0, r(k2) == 0, r(n2) == 0, r(m2) == 0, r(s2) == 0)
+        def conc(ev):
+            from pyvc import cex
+            vals = {nm: cex.rval(ev, x) for nm, x in (("kappa_1", k1), ("nu_1", n1), ("mu_1", m1), ("sigma_sq_1", s1),
+                                                       ("kappa_2", k2), ("nu_2", n2), ("mu_2", m2), ("sigma_sq_2", s2))}
+            return {"family": "combine_params", "sig": "counter-model", "prior": prior, "values": vals}
+        E.default_concretize = conc
+        return {"args": [(k1, n1, m1, s1), (k2, n2, m2, s2)], "v": dict(k1=r(k1), n1=r(n1), m1=r(m1), s1=r(s1), k2=r(k2), n2=r(n2), m2=r(m2), s2=r(s2))}
+
+    def post(E, ctx, outs):
+        rets = returns(outs)
+        if not rets:
+            E.oblige("reaches.return", [], z3.BoolVal(False))
+        v = ctx["v"]
+        for o in rets:
+            st = o.state
+            if not (isinstance(o.value, tuple) and len(o.value) == 4):
+                E.oblige("returns.four_parameters", st, False)
+                continue
+            (kn, kv), (nn, nv), (mn, mv), (sn, sv) = (to_real(x) for x in o.value)
+            E.oblige("C15.posterior_parameters_are_numbers", st, z3.Not(z3.Or(kn, nn, mn, sn)))
+            E.oblige("C15.kappa_post_is_the_sum_and_positive", st, z3.And(kv == v["k1"] + v["k2"], kv > 0))
+            E.oblige("C15.nu_post_is_the_sum_and_positive", st, z3.And(nv == v["n1"] + v["n2"], nv > 0))
+            E.oblige("C15.sigma_sq_post_is_positive" if prior != "nadaraya_watson" else "C15.sigma_sq_post_is_positive_and_df_exceeds_two", st,
+                     z3.And(sv > 0, nv > 2) if prior == "nadaraya_watson" else sv > 0)
+            lo = z3.If(v["m1"] <= v["m2"], v["m1"], v["m2"])
+            hi = z3.If(v["m1"] <= v["m2"], v["m2"], v["m1"])
+            if prior == "neutral":
+                E.oblige("C15.without_labels_the_posterior_is_the_prior", st, z3.And(kv == v["k1"], nv == v["n1"], mv == v["m1"], sv == v["s1"]))
+            elif prior == "nadaraya_watson":
+                E.oblige("C15.mu_post_is_the_kernel_weighted_mean", st, mv == v["m2"])
+            else:
+                E.oblige("C15.mu_post_lies_between_prior_and_update_mean", st, z3.And(lo <= mv, mv <= hi))
+            E.oblige("C15.predictive_scale_squared_is_positive", st, (1 + kv) / kv * sv > 0)
+    return se_unit(f"regressors._combine_params.{prior}", FN, "_combine_params", None, setup, post, lib_factory=model_lib)
+
+
+for _p in ("proper", "nadaraya_watson", "neutral"):
+    REG_UNITS[f"C15._combine_params.{_p}"] = unit_combine_params(_p)
